@@ -196,3 +196,20 @@ def render_feature(f, rng=None, layout=False, keywords=None, language_header=Non
     r = Renderer(rng, layout, keywords)
     text = r.feature(f, language_header)
     return text, r.lines
+
+
+def render_fragment(kind, node, rng=None, layout=False, keywords=None):
+    """kind: 'steps' (node = list of steps) | 'scenario' (scenario/outline node) | 'rule' (rule node) | 'tags' (list)."""
+    r = Renderer(rng, layout, keywords)
+    if kind == "steps":
+        r.steps(node, (), 0)
+    elif kind == "scenario":
+        r.scenario(node, (), 0)
+    elif kind == "rule":
+        r.tags(node.get("tags"), (), 0)
+        r.emit("%s:%s" % (node.get("kw", r.kw["rule"]), (" " + node["name"]) if node["name"] else ""), (), 0)
+        r.desc(node.get("desc"), (), 2)
+        r.container_items(node, (), 2)
+    elif kind == "tags":
+        r.tags(node, (), 0)
+    return "\n".join(r.out) + "\n", r.lines
